@@ -28,4 +28,17 @@ impl<K: KeyView, V> HashMap<K, V> {
     #[verifier::external_body]
     pub fn index_(&self, k: &K) -> (r: &V) ensures self@.dom().contains(k.kv()), *r == self@[k.kv()] { unimplemented!() }
 }
+
+/// `vec.into_iter().collect::<HashSet<_>>().into_iter().collect::<Vec<_>>()` on addresses: the distinct elements, arbitrary order
+pub trait DedupExt { fn dedup_hashset_(self) -> Vec<Addr>; }
+impl DedupExt for Vec<Addr> {
+    #[verifier::external_body]
+    fn dedup_hashset_(self) -> (r: Vec<Addr>)
+        ensures
+            forall|i: int, j: int| 0 <= i < j < r@.len() ==> (#[trigger] r@[i])@ != (#[trigger] r@[j])@,
+            forall|i: int| 0 <= i < r@.len() ==> exists|k: int| 0 <= k < self@.len() && (#[trigger] self@[k])@ == (#[trigger] r@[i])@,
+            forall|k: int| 0 <= k < self@.len() ==> exists|i: int| 0 <= i < r@.len() && (#[trigger] r@[i])@ == (#[trigger] self@[k])@,
+            r@.len() <= self@.len(),
+    { unimplemented!() }
+}
 } // verus!
